@@ -378,7 +378,7 @@ class error_997_visitor(error_visitor.error_visitor):
             seg_base.append('%i:%i' % (err_ele.ele_pos, err_ele.subele_pos))
         else:
             seg_base.append('%i' % (err_ele.ele_pos))
-        if err_ele.ele_ref_num:
+        if err_ele.ele_ref_num and err_ele.ele_ref_num.isascii() and err_ele.ele_ref_num.isdigit():  # AK402 is numeric (N0); a composite's id (C022) is not
             seg_base.append(err_ele.ele_ref_num)
         #else:
         #    seg_base.append('')
